@@ -193,3 +193,67 @@ pub fn check_edits(ctx: &mut Ctx, mode: Mode, p: &Pos, b: &Board, n_squares: usi
     }
     Ok(())
 }
+
+/// Valid positions obtained from `p` / `b` through the deprecated editing API or a null move, as
+/// (reference position, library board, description).  Used by the properties that quantify over
+/// "every valid position" so that they also see boards whose cached check / pin data was computed
+/// by those paths.  Only results that are valid positions are returned.
+pub fn other_ways(p: &Pos, b: &Board, n_squares: usize) -> Vec<(Pos, Board, String)> {
+    let mut out = vec![];
+    let h = fp(&(p, "other-ways"));
+    if p.checkers().is_empty() {
+        if let Some(nb) = b.null_move() {
+            let mut np = p.clone();
+            np.stm = p.stm.other();
+            np.ep = None;
+            if np.validate().is_ok() {
+                // and back again: two passes in a row (no en-passant state left to lose)
+                if let Some(nb2) = nb.null_move() {
+                    let mut np2 = np.clone();
+                    np2.stm = p.stm;
+                    if np2.validate().is_ok() {
+                        out.push((np2, nb2, "null_move().null_move()".to_string()));
+                    }
+                }
+                out.push((np, nb, "null_move()".to_string()));
+            }
+        }
+    }
+    if p.ep.is_none() && b.en_passant().is_none() {
+        // squares: a checker or a pinned piece first (removing those changes check / pin data), then
+        // squares chosen by the fingerprint
+        let mut squares: Vec<Sq> = p.checkers();
+        squares.extend(p.pinned());
+        for i in 0..n_squares {
+            squares.push(((h >> (6 * i)) & 63) as u8);
+        }
+        for (i, s) in squares.into_iter().enumerate() {
+            if matches!(p.at(s), Some((_, Kind::K))) {
+                continue;
+            }
+            if p.at(s).is_some() {
+                let mut np = p.clone();
+                np.board[s as usize] = None;
+                if let Some(r) = b.clear_square(bridge::sq(s)) {
+                    if np.validate().is_ok() {
+                        out.push((np, r, format!("clear_square({})", sq_name(s))));
+                    }
+                }
+            }
+            let kinds = [Kind::P, Kind::N, Kind::B, Kind::R, Kind::Q];
+            let mut k = kinds[(h.rotate_right(24 + 3 * i as u32) % 5) as usize];
+            if k == Kind::P && (rank_of(s) == 0 || rank_of(s) == 7) {
+                k = Kind::N;
+            }
+            let c = if h.rotate_right(40 + i as u32) & 1 == 0 { Col::W } else { Col::B };
+            let mut np = p.clone();
+            np.board[s as usize] = Some((c, k));
+            if let Some(r) = b.set_piece(bridge::kind(k), bridge::col(c), bridge::sq(s)) {
+                if np.validate().is_ok() {
+                    out.push((np, r, format!("set_piece({:?}, {:?}, {})", k, c, sq_name(s))));
+                }
+            }
+        }
+    }
+    out
+}
